@@ -415,6 +415,7 @@ type hayGen struct {
 	re    *syntax.Regexp
 	alpha [][]byte
 	lits  [][]byte // literal substrings of the pattern (for overlapping-occurrence haystacks)
+	lr    *rng     // separate stream for longHays / hugeHays (never advances r: the 12 shapes stay what they were)
 }
 
 func collectLits(re *syntax.Regexp, acc *[][]byte) {
@@ -429,7 +430,7 @@ func collectLits(re *syntax.Regexp, acc *[][]byte) {
 func newHayGen(r *rng, re *syntax.Regexp) *hayGen {
 	acc := map[rune]bool{}
 	alphabetOf(re, acc)
-	g := &hayGen{r: r, re: re}
+	g := &hayGen{r: r, re: re, lr: newRng(r.s ^ 0x4C4F4E4748415953)}
 	collectLits(re, &g.lits)
 	n := 0
 	// deterministic order
@@ -598,6 +599,61 @@ func (g *hayGen) overlapHays() [][]byte {
 		}
 	}
 	return out
+}
+
+// asciiFill: n bytes of ASCII drawn from the pattern's alphabet (runs of one symbol, so that
+// greedy loops and class repetitions travel far), never a multi-byte rune.
+func (g *hayGen) asciiFill(n int) []byte {
+	var as []byte
+	for _, a := range g.alpha {
+		if len(a) == 1 && a[0] < 0x80 {
+			as = append(as, a[0])
+		}
+	}
+	out := make([]byte, 0, n)
+	for len(out) < n {
+		c := as[g.lr.intn(len(as))]
+		run := 1 + g.lr.intn(40)
+		for k := 0; k < run && len(out) < n; k++ {
+			out = append(out, c)
+		}
+	}
+	return out
+}
+
+// longHays: haystacks longer than the library's internal size thresholds (the 4 KiB ASCII-prefix
+// check of the bounded-backtracker dispatchers, backtracker input limits of a few KiB, vector
+// blocks): ASCII for more than 4 KiB, then a late non-ASCII rune, with members of the pattern's
+// language at the start, in the middle and at the end.
+func (g *hayGen) longHays() [][]byte {
+	lr := g.lr
+	m1, m2, m3 := sampleMatch(lr, g.re, 0), sampleMatch(lr, g.re, 0), sampleMatch(lr, g.re, 0)
+	a := concatBytes(m1, g.asciiFill(4100+lr.intn(200)), []byte("é"), m2, g.asciiFill(3))
+	if lr.intn(8) != 0 {
+		return [][]byte{a}
+	}
+	b := concatBytes(g.asciiFill(60), m1, g.asciiFill(8200+lr.intn(500)), m3, []byte("é"))
+	return [][]byte{a, b}
+}
+
+// hugeHays: one haystack of about n bytes (beyond the visited-table capacity of the bounded
+// backtracker for mid-sized automata, so that the large-input fallbacks of the dispatchers run):
+// short ASCII words separated by single separators, i.e. very many adjacent short matches for
+// class-repetition patterns, with members of the language sprinkled in.
+func (g *hayGen) hugeHays(n int) [][]byte {
+	lr := g.lr
+	out := make([]byte, 0, n+64)
+	for len(out) < n {
+		switch lr.intn(40) {
+		case 0:
+			out = append(out, sampleMatch(lr, g.re, 0)...)
+		case 1:
+			out = append(out, "é"...)
+		default:
+			out = append(out, g.asciiFill(1+lr.intn(5))...)
+		}
+	}
+	return [][]byte{out}
 }
 
 func repeatNoise(g *hayGen, n int) []byte {
